@@ -10,7 +10,7 @@ call is recorded: the recorded table is the function T of the model (T is a sect
 Each (source, query) pair is evaluated by the model inside Coq (vm_compute) and compared with what was observed:
 no request (BlankImage), the complete parameter set of the URL, or the kind of exception.
 Streams: single sources; two sources of one upstream requested together (service.wms.combined_layers + get_map of every
-resulting layer, model: compatible / combined / render_pair); interleaved requests (a second request is run while the
+resulting layer, model: compatible / combined / render_pair; three sources in varying order: render_list); interleaved requests (a second request is run while the
 first is inside the transformation of the extent: get_map must be a function of source and query only); polygon
 coverages (difference / union / intersection of bbox coverages loaded by the real loader -> GeomCoverage; shapely's
 intersects / contains answers are recorded and are the functions GI / GC of the model; the oracle decides disjointness
@@ -328,7 +328,7 @@ def gen_config(ctx, info, k):
             t = copy.deepcopy(s)
             t['req']['layers'] = rng.choice(['rivers', 'c', 'x,y'])
             if rng.random() < 0.45:
-                what = rng.choice(['coverage', 'coverage', 'res', 'fwd', 'srs', 'url', 'formats', 'nocov'])
+                what = rng.choice(['coverage', 'coverage', 'res', 'fwd', 'srs', 'srs', 'url', 'formats', 'nocov'])
                 if what == 'coverage' and 'coverage' in t:
                     csrs = rng.choice(SRS_CODES)
                     t['coverage'] = gen_coverage(rng, [float(v) for v in geo_to(info, csrs, sub_box(rng, GEO_AREA, 0.3, 0.9))], csrs, lat)
@@ -341,8 +341,16 @@ def gen_config(ctx, info, k):
                 elif what == 'fwd':
                     t['forward_req_params'] = rng.sample(DIM_KEYS, rng.randrange(1, 4))
                 elif what == 'srs':
-                    t['supported_srs'] = rng.sample(SRS_CODES, rng.randrange(1, 4))
-                    old = s.get('supported_srs', [])
+                    old = list(s.get('supported_srs', []))
+                    how = rng.choice(['prefix', 'extended', 'reversed', 'random', 'prefix', 'extended'])
+                    if how == 'prefix' and len(old) >= 2:
+                        t['supported_srs'] = old[:rng.randrange(1, len(old))]
+                    elif how == 'extended' and old:
+                        t['supported_srs'] = old + [rng.choice([c for c in SRS_CODES if c not in old])]
+                    elif how == 'reversed' and len(old) >= 2:
+                        t['supported_srs'] = old[::-1]
+                    else:
+                        t['supported_srs'] = rng.sample(SRS_CODES, rng.randrange(1, 4))
                     if [info.cls[c] for c in old] == [info.cls[c] for c in t['supported_srs']]:
                         t['supported_srs'] = list(old)     # equal lists spelled differently: not generated
                         if not old:
@@ -352,6 +360,17 @@ def gen_config(ctx, info, k):
                 elif what == 'formats':
                     t['supported_formats'] = rng.sample(FMT_POOL[:5], rng.randrange(1, 3))
             conf['sources'][name + 'b'] = t
+            if rng.random() < 0.6:
+                # a third source on the same upstream: copy of the first or of the second, sometimes another layer list only
+                u = copy.deepcopy(rng.choice([s, t, t]))
+                u['req']['layers'] = rng.choice(['lakes', 'd', 'p,q'])
+                if rng.random() < 0.25:
+                    u.pop('coverage', None)
+                elif rng.random() < 0.2:
+                    for key in ('min_res', 'max_res', 'min_scale', 'max_scale'):
+                        u.pop(key, None)
+                    gen_res_range(rng, u, None)
+                conf['sources'][name + 'c'] = u
     nt = rng.randrange(1, 3)
     for i in range(nt):
         gname = 'g%d_%d' % (k, i)
@@ -756,6 +775,55 @@ def run_pair(P, sa, sb, q, info):
     return len(layers), outs, tcalls, gcalls, tmpl_ab, static_ok
 
 
+def run_chain(P, srcs, q, info):
+    """service.wms.combined_layers(sources, query), then get_map of every layer (fresh query objects).
+    Returns (list of (outcome, detail, urls, template of the layer's client), transform calls, geometry calls, static_ok
+    of every source towards its predecessor)."""
+    from mapproxy.layer import MapQuery, BlankImage
+    from mapproxy.image.opts import ImageFormat
+    from mapproxy.srs import TransformationError
+    from mapproxy.service.wms import combined_layers
+
+    def mk():
+        fmt = ImageFormat(q['format']) if q['typed'] else q['format']
+        return MapQuery(q['bbox'], q['size'], info.obj[q['srs']], fmt, dimensions=dict(q['dims']))
+    saved = (P.urls, P.tcalls, P.gcalls, P.recording)
+    P.tcalls, P.gcalls = [], []
+    P.recording = True
+    outs = []
+    try:
+        try:
+            layers = combined_layers(list(srcs), mk())
+        except Exception:
+            return None
+        for layer in layers:
+            P.urls = []
+            try:
+                layer.get_map(mk())
+                res = ('returned', None)
+            except Stop:
+                res = ('request', None)
+            except BlankImage:
+                res = ('blank', None)
+            except TransformationError:
+                res = ('err', 'transform')
+            except Exception as e:  # noqa
+                res = ('err', type(e).__name__)
+            t = layer.client.request_template
+            tm = [(key.lower(), list(values)) for key, values in t.params.params.iteritems()]
+            outs.append((res[0], res[1], list(P.urls), tm))
+        tcalls, gcalls = list(P.tcalls), list(P.gcalls)
+    finally:
+        P.urls, P.tcalls, P.gcalls, P.recording = saved
+    oks = []
+    for sa, sb in zip(srcs, srcs[1:]):
+        oks.append(sa.client.request_template.url == sb.client.request_template.url and sa.opacity is None and
+                   sb.opacity is None and sa.transparent_color == sb.transparent_color and
+                   sa.transparent_color_tolerance == sb.transparent_color_tolerance and
+                   sb.image_opts.transparent is not False)
+    return outs, tcalls, gcalls, oks
+
+
 def parse_url(url):
     sp = urlsplit(url)
     return sp, [(k, v) for k, v in parse_qsl(sp.query, keep_blank_values=True)]
@@ -1097,6 +1165,7 @@ def _run(ctx, P, yaml, GridCase):
     wms_defs, wms_cases, wms_desc = [], [], []
     tile_defs, tile_cases, tile_desc = [], [], []
     pair_cases, pair_desc = [], []
+    chain_cases, chain_desc = [], []
     skipped = {'float_sensitive': 0, 'off_lattice': 0, 'dup_keys': 0}
 
     corpus = load_corpus()
@@ -1319,6 +1388,60 @@ def _run(ctx, P, yaml, GridCase):
                     '; '.join(t[4] for t in terms)))
                 pair_desc.append(rep)
 
+        # ---- three sources requested together (any grouping of adjacent layers)
+        for name in sorted(built_wms):
+            if name + 'b' not in built_wms or name + 'c' not in built_wms:
+                continue
+            trio = [built_wms[name], built_wms[name + 'b'], built_wms[name + 'c']]
+            for q in trio[0][3][:ctx.n(4, 6)] + trio[2][3][:ctx.n(2, 4)]:
+                order = rng.choice([[0, 1, 2], [0, 1, 2], [1, 0, 2], [0, 2, 1], [2, 1, 0]])
+                seq = [trio[i] for i in order]
+                pr = run_chain(P, [x[1] for x in seq], q, info)
+                if pr is None:
+                    continue
+                outs, tcalls, gcalls, oks = pr
+                # which sources a layer stands for: its LAYERS parameter is the concatenation of theirs
+                groups, k = [], 0
+                for kind, detail, urls, tm in outs:
+                    lay = dict(tm).get('layers', [''])[0]
+                    g = []
+                    while k < len(seq):
+                        g.append(seq[k])
+                        k += 1
+                        if ','.join(x[0].sconf['req']['layers'] for x in g) == lay:
+                            break
+                    groups.append(g)
+                rep = {'sources': [x[0].sconf for x in seq], 'preferred_src_proj': seq[0][0].pref, 'query': q,
+                       'groups': [[x[2] for x in g] for g in groups],
+                       'outcomes': [(kk, d, [u for u, _ in us]) for kk, d, us, _ in outs], 'stream': 'chain'}
+                if k != len(seq) or any(','.join(x[0].sconf['req']['layers'] for x in g) != dict(o[3]).get('layers', [''])[0]
+                                        for g, o in zip(groups, outs)):
+                    ctx.fail('chain-grouping', 'the rendered layers do not partition the requested sources in order', rep)
+                    continue
+                ctx.case(('chain', tuple(json.dumps(x[0].sconf, sort_keys=True) for x in seq), repr(sorted(q.items()))),
+                         True, rep if (ctx.evaluations % 97 == 0) else None)
+                ctx.count('chain:groups=' + '+'.join(str(len(g)) for g in groups))
+                for g, (kind, detail, urls, tm) in zip(groups, outs):
+                    for x in g:
+                        wms_oracle(ctx, info, x[0], q, kind, urls, rep)     # the request honours every member's configuration
+                sens = any(x[0].thr is not None and rr_verdict(x[0].thr, q['bbox'], q['size'], info.latlong[q['srs']])[1] for x in seq)
+                terms, tmpls = [], []
+                for g, (kind, detail, urls, tm) in zip(groups, outs):
+                    tmpls.append(llit(tm, lambda kv: '(%d, %s)' % (strs.id(kv[0]), llit(kv[1], lambda v: 'VStr %d' % strs.id(v)))))
+                for g, (kind, detail, urls, tm) in zip(groups, outs):
+                    t = wms_term(ctx, info, strs, g[0][0], q, kind, detail, urls, tcalls, gcalls, skipped)
+                    if t is None:
+                        sens = True
+                        break
+                    terms.append(t)
+                if sens or not terms:
+                    continue
+                tt, gi, gc_, ql, _ = terms[0]
+                chain_cases.append('(%s, [%s], [%s], %s_f, %s, %s, %s, %s, [%s])' % (
+                    seq[0][2], '; '.join('(%s, %s)' % (blit(o), x[2]) for o, x in zip(oks, seq[1:])), '; '.join(tmpls),
+                    seq[0][2], tt, gi, gc_, ql, '; '.join(t[4] for t in terms)))
+                chain_desc.append(rep)
+
     for k, v in skipped.items():
         ctx.distribution['skipped_' + k] = v
     ctx.distribution['corpus_configurations'] = ncorpus
@@ -1334,6 +1457,12 @@ def _run(ctx, P, yaml, GridCase):
                    "fun c => let '(ok, a, b, ta, tb_, tab, fixed, tt_, gi, gc, q, obs) := c in "
                    "pair_obs_eqb ta tb_ tab fixed (render_pair (T_of tt_) KN KD (glookup gi) (glookup gc) ok a b q) obs",
                    lambda i: pair_desc[i], defs=kdefs + '\n'.join(wms_defs), shard=300)
+    ctx.corr_check('render_list', 'Grid Upstream',
+                   'wms_source * list (bool * wms_source) * list params * list (Z * Z) * ttable * gtable * gtable * query * list wms_obs',
+                   chain_cases,
+                   "fun c => let '(a, rest, tmpls, fixed, tt_, gi, gc, q, obs) := c in "
+                   "outs_eqb tmpls fixed (render_list (T_of tt_) KN KD (glookup gi) (glookup gc) a rest q) obs",
+                   lambda i: chain_desc[i], defs=kdefs + '\n'.join(wms_defs), shard=300)
     ctx.corr_check('tiled_get_map', 'Grid Upstream',
                    'tile_source * ttable * gtable * query * tile_obs', tile_cases,
                    "fun c => let '(ts, tb, gi, q, obs) := c in tile_obs_eqb (tiled_get_map (T_of tb) KN KD (glookup gi) ts q) obs",
